@@ -11,6 +11,17 @@ def run(chk):
         chk.broken_obligation("build", "harness does not build against /repo: " + blog)
         return
     m_sv.run(chk, binary, 400 if quick else 6000, "default")
+    # Miri over every unsafe block through the public API (moves, boxes, swaps, drops mid-way,
+    # malformed curve lists): Stacked Borrows on every run, Tree Borrows as well in the thorough tier
+    for name, flags in ([("stacked-borrows", "")] if quick else [("stacked-borrows", ""), ("tree-borrows", "-Zmiri-tree-borrows")]):
+        ok, text = miri_run(flags)
+        chk.dist(f"miri.{name}={'ok' if ok else 'UB-or-failure'}")
+        chk.cov["evaluations"] = chk.cov.get("evaluations", 0) + 1
+        if not ok:
+            lines = [l for l in text.splitlines() if not l.lstrip().startswith(("Compiling", "Finished", "Running"))]
+            chk.violation(f"Miri ({name}) rejects a history of public API calls: " + next((l for l in lines if "error" in l), "no miri-ok line"),
+                          {"replay": f"cd /verif/miri && MIRIFLAGS='{flags}' cargo +nightly miri run --offline",
+                           "program": "/verif/miri/src/main.rs", "miri_output": "\n".join(lines)[:6000]})
     chk.cov["rule"] = ("op sequences over {push(any 64-bit word), retain, sort, retain_sort} from a corner pool "
                        "(zeros, -0, subnormals, +-inf, +-NaN) and random words; non-trivial = at least two pushes "
                        "and at least one zero-like push or structural op; distinct by op list")
@@ -19,6 +30,7 @@ def run(chk):
         "hand-written model Model/StrainsVec.v tied to src/util/strains_vec.rs by bit-exact op-sequence differential",
         "rustc layout of Vec<StrainsEntry> vs Vec<f64> (the transmute) is trusted",
         "tools/m_sv.py (trace -> Coq literals), harness/src/sv.rs",
+        "Model/Owner.v is a hand-written heap/ownership/tag model of the three lifetime-extending sites; it is tied to the source by the translator's lifetime_facts (tools/extract.py parse_lifetimes, regex-level) and supported by Miri runs of /verif/miri (nightly Miri, Stacked + Tree Borrows) — Miri samples histories, the theorem covers all of them within the model",
     ]
     chk.assumptions += [
         "len < 2^63 (usize on 64-bit, bounded by memory)",
